@@ -244,7 +244,34 @@ def m_pow(a, b):
     return Sym(p, "r", meta=("pow", a, b))
 
 
+def m_isqrt(z):
+    if not is_sym(z):
+        if z < 0:
+            raise PyRaise("ValueError", "isqrt() argument must be nonnegative")
+        return math.isqrt(z)
+    if z.k == "r":
+        raise PyRaise("TypeError", "isqrt of a float")
+    if bool(compare(z, 0, "<")):
+        raise PyRaise("ValueError", "isqrt() argument must be nonnegative")
+    f = _UF.setdefault(("isqrt", "int"), z3.Function("isqrt", z3.IntSort(), z3.IntSort()))
+    zt = as_int_term(z)
+    m = f(zt)
+    _assume(m >= 0)
+    _assume(m * m <= zt)
+    _assume(zt < (m + 1) * (m + 1))
+    return Sym(m, "i", meta=("isqrt", z))
+
+
 def m_floor(x):
+    if is_sym(x) and x.meta and x.meta[0] == "div":
+        a, b = lift(x.meta[1]), lift(x.meta[2])
+        if a.k in "ib" and b.k in "ib":
+            # floor of a quotient of integers = Python floor division: q*b <= a < (q+1)*b for b > 0 (mirrored for b < 0)
+            q = Sym(z3.ToInt(x.t), "i")
+            at, bt = as_int_term(a), as_int_term(b)
+            _assume(z3.Implies(bt > 0, z3.And(q.t * bt <= at, at < (q.t + 1) * bt)))
+            _assume(z3.Implies(bt < 0, z3.And(q.t * bt >= at, at > (q.t + 1) * bt)))
+            return q
     if is_sym(x) and x.meta and x.meta[0] == "sqrt" and (not is_sym(x.meta[1]) or x.meta[1].k in "ib"):
         z = lift(x.meta[1])
         m = Sym(z3.ToInt(x.t), "i")
@@ -988,6 +1015,7 @@ def make_externals(interp):
     register_model(math.prod, lambda interp, it, start=1: functools.reduce(mul, list(interp.iterate(it)), start))
     math_attrs["prod"] = _always_model(lambda interp, it, start=1: functools.reduce(mul, list(interp.iterate(it)), start), "prod")
     register_model(math.trunc, lambda interp, x: to_int_trunc(x))
+    register_model(math.isqrt, lambda interp, x: m_isqrt(x))
     register_model(math.erf, lambda interp, x: Sym(uf("erf")(as_real_term(x)), "r", meta=("erf", x)))
     register_model(math.erfc, lambda interp, x: sub(1, Sym(uf("erf")(as_real_term(x)), "r", meta=("erf", x))))
     register_model(math.gamma, lambda interp, x: Sym(uf("gamma")(as_real_term(x)), "r", meta=("gamma", x)))
